@@ -172,7 +172,7 @@ def stage_view_corr(ctx: Ctx):
         cur_len = lambda: len(getids())
         ok_case = True
         for _ in range(nops):
-            k = rng.choice(['setslice', 'setslice', 'setone', 'delslice', 'delone', 'insert', 'append', 'extend', 'prepend',
+            k = rng.choice(['setslice', 'setslice', 'setone', 'setnone', 'delslice', 'delone', 'insert', 'append', 'extend', 'prepend',
                             'prextend', 'replace', 'external'])
             L = len(view)
             ri = lambda: rng.randrange(-L - 2, L + 3)
@@ -224,6 +224,15 @@ def stage_view_corr(ctx: Ctx):
                     else:
                         mexp_err = True
                     del view[i]
+                elif k == 'setnone':     # assigning None to an item deletes it (the same as del view[i])
+                    i = ri()
+                    ops_c.append(f'ODelOne {cz(i)}')
+                    mdesc = ('setnone', i)
+                    if -len(mwin) <= i < len(mwin):
+                        del mwin[i]
+                    else:
+                        mexp_err = True
+                    view[i] = None
                 elif k == 'insert':
                     i = rng.choice([ri(), 'end'])
                     new = fresh(rng.randrange(1, 3))
@@ -519,6 +528,115 @@ def stage_api(ctx: Ctx):
             json.dump(sorted(set(refusals)), f)
 
 
+def stage_orelse_sweep(ctx: Ctx):
+    """deterministic: the else-part of if / while / for / try (plain else, elif chain, nested) as a Python list: every (start, stop) with every short list of new
+    statements that begin with or contain an `if` (the elif spelling), through put_slice / attribute assignment / view slice assignment / view.replace:
+    orelse == old[:start] + new + old[stop:] and nothing else in the tree changes"""
+    import fst
+    import itertools
+    heads = [('if a:\n    pass\n', 'If'), ('while a:\n    pass\n', 'While'), ('for i in a:\n    pass\n', 'For'), ('try:\n    pass\nexcept E:\n    pass\n', 'Try')]
+    pool = ['if c:\n    pass', 'd', 'if e:\n    f\nelse:\n    g', 'if h:\n    i\nelif j:\n    k']
+    olds_list = [[], ['x'], ['x', 'y'], ['if b:\n    y'], ['if b:\n    y\nelse:\n    z'], ['if b:\n    y', 'w']]
+    ind = lambda t, p: '\n'.join(p + l if l else l for l in t.split('\n'))
+    for (head, kind), nested in itertools.product(heads, (False, True)):
+        for olds in olds_list:
+            n = len(olds)
+            for elif_spelling in ((False, True) if kind == 'If' and n == 1 and olds[0].startswith('if') else (False,)):
+                if elif_spelling:
+                    block = head + 'el' + olds[0] + '\n'
+                else:
+                    block = head + ('else:\n' + ind('\n'.join(olds), '    ') + '\n' if olds else '')
+                src = ('def fn():\n' + ind(block, '    ') + '    after\n') if nested else ('pre\n' + block + 'after\n')
+                path = 'body[0].body[0]' if nested else 'body[1]'
+                news_list = [list(t) for k in (1, 2, 3) for t in itertools.product(pool, repeat=k)]
+                news_list = ctx.rng.sample(news_list, ctx.scale(8, len(news_list)))
+                ranges = [(0, 'end')] + [(i, i + 1) for i in range(n)] + [(i, i) for i in range(n + 1)]
+                for news in news_list:
+                    for (s0, e0) in ranges:
+                        ce = n if e0 == 'end' else e0
+                        exp_list = olds[:s0] + news + olds[ce:]
+                        want = ast.parse(src)
+                        wn = want.body[0].body[0] if nested else want.body[1]
+                        wn.orelse = [st for t in exp_list for st in ast.parse(t).body]
+                        code_src = '\n'.join(news)
+                        for ep in ('put_slice', 'attr', 'view_setslice', 'view_replace', 'fst_code'):
+                            if ep == 'attr' and (s0, e0) != (0, 'end'):
+                                continue
+                            m = fst.FST(src, 'exec')
+                            node = m.child_from_path(path)
+                            desc = {'src': src, 'block': kind, 'old': olds, 'new': news, 'start': s0, 'stop': e0, 'entry': ep}
+                            try:
+                                if ep == 'put_slice':
+                                    node.put_slice(code_src, s0, e0, 'orelse')
+                                elif ep == 'fst_code':
+                                    node.put_slice(fst.FST(code_src, 'exec'), s0, e0, 'orelse')
+                                elif ep == 'attr':
+                                    node.orelse = code_src
+                                elif ep == 'view_setslice':
+                                    node.orelse[s0:(None if e0 == 'end' else e0)] = code_src
+                                else:
+                                    node.orelse[s0:(None if e0 == 'end' else e0)].replace(code_src, one=False)
+                            except Exception as ex:
+                                ctx.tick(None, 'orelse:refused')
+                                ctx.violation(f'orelse-refused|{kind}|{type(ex).__name__}', 'a list operation on an else-part whose result is valid Python was refused', {**desc, 'error': repr(ex)[:300]})
+                                continue
+                            ctx.tick((src, tuple(news), s0, e0, ep), 'orelse:' + ep)
+                            try:
+                                got_src = canon(ast.parse(m.src))
+                            except SyntaxError as ex:
+                                got_src = ('SyntaxError', str(ex))
+                            if canon(m.a) != canon(want) or got_src != canon(want):
+                                ctx.violation(f'orelse|structure|{kind}|{ep}', 'resulting structure differs from old[:start] + new + old[stop:] (rest of tree unchanged)',
+                                              {**desc, 'result_src': m.src, 'expected': ast.unparse(want), 'live_equals_expected': canon(m.a) == canon(want)})
+
+
+def stage_split_fields(ctx: Ctx):
+    """deterministic: Call.args / Call.keywords / ClassDef.bases / ClassDef.keywords when positional and keyword arguments interleave in the source
+    (f(a, k=1, *b, j=2)): every (start, stop) x short new lists through put_slice. Either refused with nothing changed, or the field is
+    old[:start] + new + old[stop:], the other field is unchanged and the source parses to the same tree."""
+    import fst
+    import itertools
+    layouts = ['a, k=1, *b', 'a, k=1, *b, j=2', 'k=1, *b', 'a, *b, k=1, **d', 'a, b', 'k=1, j=2', '*b, k=1, *c, j=2, **d', 'a, k=1, *b, j=2, *c']
+    wrap = [('f({})', 'expr', ('args', 'keywords'), lambda m: m), ('class C({}): pass', 'exec', ('bases', 'keywords'), lambda m: m.body[0])]
+    news = {'pos': [['n'], ['n', 'o'], ['*n']], 'kw': [['n=2'], ['n=2', 'o=3'], ['**n']]}
+    for layout, (tpl, mode, fields, getn) in itertools.product(layouts, wrap):
+        src = tpl.format(layout)
+        probe = getn(fst.FST(src, mode))
+        for field in fields:
+            olds = [ast.unparse(x) for x in getattr(probe.a, field)]
+            other = fields[1] if field == fields[0] else fields[0]
+            n = len(olds)
+            ranges = [(i, j) for i in range(n + 1) for j in range(i, n + 1)]
+            for (s0, e0), newl in itertools.product(ranges, [[]] + news['pos' if field != 'keywords' else 'kw']):
+                if not newl and s0 == e0:
+                    continue
+                m = fst.FST(src, mode)
+                node = getn(m)
+                before = (m.src, ast.dump(m.a))
+                other_before = [ast.dump(x) for x in getattr(node.a, other)]
+                exp = olds[:s0] + newl + olds[e0:]
+                desc = {'src': src, 'field': field, 'old': olds, 'new': newl, 'start': s0, 'stop': e0}
+                try:
+                    node.put_slice(', '.join(newl) if newl else None, s0, e0, field)
+                except Exception as ex:
+                    ctx.tick((src, field, s0, e0, tuple(newl), 'refused'), 'split:refused')
+                    if (m.src, ast.dump(m.a)) != before:
+                        ctx.violation(f'split-refused-dirty|{field}', 'a refused slice put changed source or tree', {**desc, 'error': repr(ex)[:200], 'src_now': m.src})
+                    elif not isinstance(ex, (fst.NodeError, ValueError, SyntaxError)):
+                        ctx.violation(f'split-crash|{field}|{type(ex).__name__}', 'a slice put crashed', {**desc, 'error': repr(ex)[:200]})
+                    continue
+                ctx.tick((src, field, s0, e0, tuple(newl)), 'split:' + field)
+                got = [ast.unparse(x) for x in getattr(node.a, field)]
+                other_after = [ast.dump(x) for x in getattr(node.a, other)]
+                try:
+                    re_ok = canon(ast.parse(m.src)) == canon(m.a if mode == 'exec' else ast.Module(body=[ast.Expr(value=m.a)], type_ignores=[]))
+                except SyntaxError as ex2:
+                    re_ok = False
+                if got != exp or other_after != other_before or not re_ok:
+                    ctx.violation(f'split|structure|{type(node.a).__name__}.{field}', 'resulting field differs from old[:start] + new + old[stop:], or the other argument field changed, or the source does not parse to the tree',
+                                  {**desc, 'result_src': m.src, 'expected_field': exp, 'got_field': got, 'other_field_unchanged': other_after == other_before, 'source_parses_to_tree': re_ok})
+
+
 def run(ctx: Ctx):
     ctx.rule = ('(1) exhaustive small-domain + random 64-bit argument tuples for the translated index functions, model (vm_compute) vs '
                 'real function vs Python list; (2) random FSTView op sequences, model vs real, distinct = (field kind, op-name sequence, '
@@ -535,6 +653,8 @@ def run(ctx: Ctx):
     run_guarded(ctx, stage_fixups_corr)
     run_guarded(ctx, stage_view_corr)
     run_guarded(ctx, stage_api)
+    run_guarded(ctx, stage_orelse_sweep)
+    run_guarded(ctx, stage_split_fields)
 
 
 def replay(path):
